@@ -985,3 +985,135 @@ def _np_normal(I, st, pos, kws, node):
         ok.ghost.setdefault("normal_calls", []).append(dict(loc=loc, scale=scale, size=n, result=ref))
         res.append((ok, ref))
     return res
+
+
+# =========================================================================== numerics (assumed contracts)
+
+def _kw_plain(I, kws, allowed, what):
+    for k in kws:
+        if k not in allowed:
+            raise EngineError(f"{what}: keyword {k} not modelled")
+
+
+@libfn("numpy.interp")
+def _np_interp(I, st, pos, kws, node):
+    """ASSUMED: numpy.interp(new_x, x, y) with default left/right is the piecewise-linear interpolant of (x, y),
+    constant outside [x[0], x[-1]]; result is an ndarray of len(new_x).  x must be increasing (not checked by numpy)."""
+    nx, x, y = pos[0], pos[1], pos[2]
+    rn, rx, ry = L.rseq(I, st, nx), L.rseq(I, st, x), L.rseq(I, st, y)
+    excs, ok = I.may_raise(st, z3.Or(rx.length != ry.length, rx.length == 0), "ValueError", "fp and xp are not of the same length / empty", I.where(node))
+    res = list(excs)
+    if ok is None:
+        return res
+    st = ok
+    ref = L.fresh_seq(st, "ndarray", "real", rn.length, "interp")
+    R = st.heap[ref.id].arr
+    K = z3.Function(fresh_name("interp_seg"), z3.IntSort(), z3.IntSort())
+    i = z3.Int(fresh_name("i"))
+    ex, ey, en, m = rx.elem, ry.elem, rn.elem, rx.length
+    v = to_real(en(i))
+    k = K(i)
+    xk, xk1, yk, yk1 = to_real(ex(k)), to_real(ex(k + 1)), to_real(ey(k)), to_real(ey(k + 1))
+    st.assume(forall_pat([i], z3.Implies(z3.And(i >= 0, i < rn.length), z3.And(
+        z3.Implies(v <= to_real(ex(z3.IntVal(0))), R[i] == to_real(ey(z3.IntVal(0)))),
+        z3.Implies(v >= to_real(ex(m - 1)), R[i] == to_real(ey(m - 1))),
+        z3.Implies(z3.And(v > to_real(ex(z3.IntVal(0))), v < to_real(ex(m - 1))),
+                   z3.And(k >= 0, k < m - 1, xk <= v, v <= xk1,
+                          z3.Implies(v == xk, R[i] == yk), z3.Implies(v == xk1, R[i] == yk1),
+                          z3.Implies(xk1 != xk, R[i] == yk + (yk1 - yk) * (v - xk) / (xk1 - xk)))))), [R[i]]))
+    st.ghost.setdefault("lib_calls", []).append(dict(fn="numpy.interp", new_x=nx, x=x, y=y, kwargs=dict(kws), result=ref))
+    if kws:
+        I.assumed.add("np.interp: forwarded keyword arguments (left/right/period) are absent or leave the default behaviour")
+    res.append((st, ref))
+    return res
+
+
+def _spline_object(I, st, kind, x, y, s_val, interpolating, kws):
+    """a callable spline object g; ASSUMED: if `interpolating` then g(x[k]) == y[k]; smoothing condition otherwise"""
+    G = z3.Function(fresh_name("spline"), z3.RealSort(), z3.RealSort())
+    rx, ry = L.rseq(I, st, x), L.rseq(I, st, y)
+    k = z3.Int(fresh_name("k"))
+    cond = interpolating if z3.is_expr(interpolating) else z3.BoolVal(bool(interpolating))
+    gx = G(to_real(rx.elem(k)))
+    st.assume(z3.Implies(cond, forall_pat([k], z3.Implies(z3.And(k >= 0, k < rx.length), gx == to_real(ry.elem(k))), [gx])))
+    fields = dict(fn=FunV("uninterp", fn=G, name="spline"), src_x=x, src_y=y, kind=StrV(kind))
+    if s_val is not None:
+        fields["s"] = s_val
+    return st.alloc(ObjVal("ext:spline", fields))
+
+
+@libfn("scipy.interpolate.CubicSpline")
+def _cubic_spline(I, st, pos, kws, node):
+    """ASSUMED: CubicSpline(x, y) interpolates (passes through every knot); ValueError unless x is strictly increasing
+    with >= 2 points and len(x) == len(y)."""
+    x, y = pos[0], pos[1]
+    rx, ry = L.rseq(I, st, x), L.rseq(I, st, y)
+    i, j = z3.Int(fresh_name("i")), z3.Int(fresh_name("j"))
+    incr = z3.ForAll([i, j], z3.Implies(z3.And(i >= 0, i < j, j < rx.length), to_real(rx.elem(i)) < to_real(rx.elem(j))))
+    excs, ok = I.may_raise(st, z3.Not(z3.And(rx.length >= 2, rx.length == ry.length, incr)), "ValueError",
+                           "CubicSpline: x must be strictly increasing, >= 2 points, same length as y", I.where(node))
+    res = list(excs)
+    if ok is not None:
+        if kws:
+            I.assumed.add("CubicSpline: forwarded keyword arguments keep the interpolation property")
+        res.append((ok, _spline_object(I, ok, "cubic", x, y, None, True, kws)))
+    return res
+
+
+@libfn("scipy.interpolate.splrep")
+def _splrep(I, st, pos, kws, node):
+    """ASSUMED: splrep(x, y, s=s) returns (t, c, k) of a cubic smoothing spline g with sum((y - g(x))**2) <= s*(1+tol),
+    interpolating for s == 0; needs len(x) > 3, x increasing; with s absent/None and no weights, s = 0 (interpolating)."""
+    x, y = pos[0], pos[1]
+    rx, ry = L.rseq(I, st, x), L.rseq(I, st, y)
+    s = kws.get("s")
+    excs, ok = I.may_raise(st, z3.Not(z3.And(rx.length > 3, rx.length == ry.length)), "TypeError", "splrep: m > k must hold", I.where(node))
+    res = list(excs)
+    if ok is not None:
+        t = TupV([AnyV("t"), AnyV("c"), AnyV("k")])
+        ok.ghost.setdefault("lib_calls", []).append(dict(fn="scipy.interpolate.splrep", x=x, y=y, s=s, kwargs=dict(kws)))
+        res.append((ok, t))
+    return res
+
+
+@libfn("scipy.interpolate.BSpline")
+def _bspline(I, st, pos, kws, node):
+    if len(pos) != 3 or not (isinstance(pos[0], AnyV) and pos[0].tag == "t"):
+        raise EngineError("BSpline: only BSpline(*splrep(...)) is modelled")
+    info = None
+    for call in reversed(st.ghost.get("lib_calls", [])):
+        if call["fn"] == "scipy.interpolate.splrep":
+            info = call
+            break
+    if info is None:
+        raise EngineError("BSpline without splrep")
+    s = info["s"]
+    if s is None or isinstance(s, NoneV):
+        interpolating = True       # SciPy: "s = 0.0 (interpolating) if no weights are supplied"
+        sval = RealN(0)
+    elif isinstance(s, Num):
+        interpolating = to_real(s) == 0
+        sval = s
+    elif isinstance(s, OptV):
+        interpolating = z3.And(z3.Not(s.isnone), to_real(s.val) == 0)
+        sval = s
+    else:
+        raise EngineError("splrep s")
+    return [(st, _spline_object(I, st, "bspline", info["x"], info["y"], sval, interpolating, kws))]
+
+
+@method("spline.__call__")
+def _spline_call(I, st, selfv, pos, kws, node):
+    o = st.heap[selfv.id]
+    G = o.fields["fn"].fn
+    (arg,) = pos
+    if isinstance(arg, Num):
+        return [(st, Num(G(to_real(arg)), "real"))]
+    ra = L.rseq(I, st, arg)
+    e = ra.elem
+    return [(st, L.new_seq(st, "ndarray", "real", ra.length, lambda i: Num(G(to_real(e(i))), "real")))]
+
+
+@libfn("numpy.loadtxt")
+def _np_loadtxt(I, st, pos, kws, node):
+    return I.specs.os_model.loadtxt(I, st, pos, kws, node)
